@@ -145,8 +145,10 @@ def run(repo: Repo, rep: Report, tier: str) -> None:
     rep.check(ok, "C02-R3", "a constant member is listed once (constant part only)", "`continue` after the constant store" if ok else "a constant member also reaches the computed list: it is emitted twice and summed on the wire", bl.loc(cs[0]) if cs else bl.loc())
     # every member whose signal is announced in the bundle's type set is also delivered: from the `all_signal_types.add(...)` of a scalar member no path
     # reaches the next element without storing the constant or appending the lowered element
+    # the member-type set, by role: the local that starts as `set()` and receives the name of a scalar member (`<type>.signal_type.name`)
     adds = [s for s in cfg.stmts() if isinstance(s, ast.Expr) and isinstance(s.value, ast.Call) and call_name(s.value) == "add"
-            and isinstance(s.value.func, ast.Attribute) and norm(s.value.func.value) == "all_signal_types"]
+            and isinstance(s.value.func, ast.Attribute) and isinstance(s.value.func.value, ast.Name) and "set()" in cbl.alts(s.value.func.value)
+            and s.value.args and ".signal_type.name" in cbl.text(s.value.args[0])]
     if not adds:
         raise AnalysisError("C02-R3: the member-type recording (`all_signal_types.add`) was not found in lower_bundle_literal")
     contrib = {id(x) for x in cs + apps}
